@@ -112,9 +112,14 @@ func (ex *Exec) stepGo(x *ssa.Go) {
 		a2 = args[1].T
 	}
 	ex.emit(ex.mkEvent(evSpawn, fnid, nil, a2, recv))
-	// the spawned function's precondition must hold at the spawn point
+	// the spawned function's precondition must hold at the spawn point; a new
+	// goroutine starts without holding any lock ($held is per goroutine)
 	if spec, info := ex.V.contractFor(ex, c); spec != nil {
+		saved := ex.cur
+		ex.cur = saved.clone()
+		ex.setHeap(ex.cur, "$held", ex.V.constArr(ex, ArrS(SInt, SInt), IntLit(0)))
 		ex.checkCallPre(spec, info, c, args, x.Pos())
+		ex.cur = saved
 	} else if ex.closureFn[c.Value] == nil {
 		ex.fail("go statement with callee lacking a contract: %s", c.String())
 	}
@@ -220,6 +225,7 @@ type calleeInfo struct {
 	names    []string      // parameter names (receiver first for methods)
 	resNames []string
 	pkg      *types.Package
+	closure  ssa.Value // the MakeClosure value when a closure is called / spawned
 }
 
 func (ex *Exec) doCall(c *ssa.CallCommon, instr ssa.Instruction, pos token.Pos) Val {
@@ -268,7 +274,9 @@ func (ex *Exec) callWith(c *ssa.CallCommon, instr ssa.Instruction, pos token.Pos
 		return ex.freshVal("nocontract", rt)
 	}
 	if c.IsInvoke() {
-		ex.panicCheck("nil", Neq(args[0].T, IntLit(0)), pos, "method call on nil interface "+describe(c.Value))
+		if spec.Attrs["maypanic"] != "true" {
+			ex.panicCheck("nil", Neq(args[0].T, IntLit(0)), pos, "method call on nil interface "+describe(c.Value))
+		}
 	} else if c.StaticCallee() == nil {
 		fv := ex.val(c.Value)
 		if fnval != nil {
@@ -304,6 +312,15 @@ func (ex *Exec) calleeEnv(spec *FuncSpec, info calleeInfo, args []Val, st, old *
 			env.vars[n] = args[i]
 		}
 		env.vars[fmt.Sprintf("arg%d", i)] = args[i]
+	}
+	// captured variables of a closure: their current values at the call / spawn
+	if info.fn != nil && len(info.fn.FreeVars) > 0 && info.closure != nil {
+		binds := ex.closures[info.closure]
+		for i, fv := range info.fn.FreeVars {
+			if i < len(binds) && binds[i].Loc != nil {
+				env.vars[fv.Name()] = ex.load(st, binds[i].Loc)
+			}
+		}
 	}
 	return env
 }
@@ -409,6 +426,10 @@ func (ex *Exec) applyContract(spec *FuncSpec, info calleeInfo, c *ssa.CallCommon
 				if len(v.Fs) > 0 {
 					v = v.Fs[0]
 				}
+				if cl.Expr != nil {
+					ex.pendingBinds = append(ex.pendingBinds, cl)
+					continue
+				}
 				t := ex.V.specType(cl.Type, ex.pkg)
 				v.Ty = t
 				// on paths that do not execute the call the ghost keeps its (arbitrary) initial value
@@ -433,6 +454,19 @@ func (ex *Exec) applyContract(spec *FuncSpec, info calleeInfo, c *ssa.CallCommon
 			ex.assumeHere(g.T)
 		}
 	}
+	for _, cl := range ex.pendingBinds {
+		v := ex.evalSpec(cl.Expr, ex.envAt(ex.cur, nil))
+		t := ex.V.specType(cl.Type, ex.pkg)
+		v.Ty = t
+		if old, ok := ex.ghosts[cl.Name]; ok && old.T != nil && v.T != nil && ex.pc != True {
+			c := ex.D.Fresh("g."+cl.Name, v.T.S)
+			ex.assume(Eq(c, Ite(ex.pc, v.T, old.T)))
+			v.T = c
+		}
+		ex.ghosts[cl.Name] = v
+		ex.ghostTy[cl.Name] = t
+	}
+	ex.pendingBinds = nil
 	if spec.Attrs["maypanic"] == "true" {
 		p := ex.D.Fresh("panicked", SBool)
 		ex.setHeap(ex.cur, "$panicking", p)
@@ -483,6 +517,10 @@ func (ex *Exec) bindResults(env *Env, spec *FuncSpec, info calleeInfo, res Val, 
 func (ex *Exec) havocTarget(e SExpr, env *Env, pre, post *State) {
 	switch x := e.(type) {
 	case *SIdent:
+		if x.Name == "heap" {
+			ex.havocAll(post)
+			return
+		}
 		if strings.HasPrefix(x.Name, "$") {
 			ex.havocGhost(x.Name, pre, post)
 			return
@@ -709,6 +747,11 @@ func (ex *Exec) callBuiltin(b *ssa.Builtin, c *ssa.CallCommon, args []Val, pos t
 		ex.assumeHere(False)
 		return Val{Ty: rt}
 	case "recover":
+		if ex.fn.Parent() != nil && (ex.spec == nil || ex.spec.Attrs["deferred"] != "true") {
+			// recover() only stops a panic when called directly by a deferred
+			// function; in a nested function it returns nil and changes nothing
+			return Val{T: IntLit(0), Ty: rt}
+		}
 		p := ex.getHeap(ex.cur, "$panicking", SBool)
 		r := ex.D.Fresh("recovered", SInt)
 		ex.assume(Ge(r, IntLit(0)))
